@@ -163,17 +163,24 @@ __CPROVER_assigns (psf->error, psf->dither, psf->read_short, psf->read_int, psf-
 CODEC_REINIT (float32_init)
 CODEC_REINIT (double64_init)
 
+/* ghost record of the positioning / truncation calls a command makes (SFC_FILE_TRUNCATE clauses, C08) */
+struct trunc_ghost { sf_count_t seek_arg, seek_ret, fseek_ret, trunc_len ; int seek_whence, seek_calls, trunc_calls, trunc_ret ; } gt ;
+sf_count_t vin_trunc_pos ;
+
 sf_count_t sf_seek (SNDFILE *sndfile, sf_count_t offset, int whence)
 __CPROVER_requires (sndfile != NULL && __CPROVER_r_ok (sndfile, sizeof (SF_PRIVATE)))
-__CPROVER_assigns (PSF->error, PSF->read_current, PSF->write_current, PSF->last_op, PSF->pipeoffset)
+__CPROVER_assigns (PSF->error, PSF->read_current, PSF->write_current, PSF->last_op, PSF->pipeoffset, gt.seek_arg, gt.seek_ret, gt.seek_whence, gt.seek_calls)
+__CPROVER_ensures (gt.seek_arg == offset && gt.seek_whence == whence && gt.seek_ret == __CPROVER_return_value && gt.seek_calls == __CPROVER_old (gt.seek_calls) + 1)
 ;
 sf_count_t psf_fseek (SF_PRIVATE *psf, sf_count_t offset, int whence)
 __CPROVER_requires (__CPROVER_r_ok (psf, sizeof (SF_PRIVATE)))
-__CPROVER_assigns (psf->error, psf->pipeoffset)
+__CPROVER_assigns (psf->error, psf->pipeoffset, gt.fseek_ret)
+__CPROVER_ensures (gt.fseek_ret == __CPROVER_return_value)
 ;
 int psf_ftruncate (SF_PRIVATE *psf, sf_count_t len)
 __CPROVER_requires (__CPROVER_r_ok (psf, sizeof (SF_PRIVATE)))
-__CPROVER_assigns (psf->error)
+__CPROVER_assigns (psf->error, gt.trunc_len, gt.trunc_calls, gt.trunc_ret)
+__CPROVER_ensures (gt.trunc_len == len && gt.trunc_calls == __CPROVER_old (gt.trunc_calls) + 1 && gt.trunc_ret == __CPROVER_return_value)
 ;
 /* container command hook: touches at most datasize bytes of data (generic contract, enforced on
 ** wav_command / aiff_command / ... in their units) */
@@ -233,7 +240,9 @@ __CPROVER_requires ((command == vin_command || command == SFC_SET_COMPRESSION_LE
 __CPROVER_requires (data == NULL || __CPROVER_is_fresh (data, datasize > 0 ? (size_t) datasize : 0))
 __CPROVER_requires ((data == NULL) == (vin_data_null != 0))
 __CPROVER_requires ((command == SFC_SET_CHANNEL_MAP_INFO && data != NULL && 0 <= g_idx && g_idx < 4096 && (g_idx + 1) * 4 <= datasize) ==> ((const int *) data) [g_idx] == vin_id)
-__CPROVER_assigns (sf_errno, g_fmt_size, g_fmt_dst, __CPROVER_object_whole (&gd); sndfile != NULL: __CPROVER_object_whole (sndfile); (data != NULL && datasize > 0): __CPROVER_object_whole (data);
+__CPROVER_requires ((command == SFC_FILE_TRUNCATE && data != NULL && datasize == 8) ==> *((sf_count_t *) data) == vin_trunc_pos)
+__CPROVER_requires (gt.trunc_calls == 0 && gt.seek_calls == 0)
+__CPROVER_assigns (sf_errno, g_fmt_size, g_fmt_dst, __CPROVER_object_whole (&gd), __CPROVER_object_whole (&gt); sndfile != NULL: __CPROVER_object_whole (sndfile); (data != NULL && datasize > 0): __CPROVER_object_whole (data);
 	(sndfile != NULL && PSF->instrument != NULL): __CPROVER_object_whole (PSF->instrument))
 __CPROVER_frees (sndfile != NULL: PSF->peak_info, PSF->channel_map)
 /* queries are pure (C17): settings, metadata pointers and - except for the CALC family, whose position
@@ -247,6 +256,14 @@ __CPROVER_ensures ((sndfile != NULL && FILE_OK && vin_have_written && (vin_comma
 __CPROVER_ensures ((sndfile != NULL && FILE_OK && vin_command == SFC_SET_CHANNEL_MAP_INFO && !vin_have_written && !vin_data_null && vin_datasize == 4 * vin_channels
 					&& 0 <= g_idx && g_idx < vin_channels && (vin_id <= SF_CHANNEL_MAP_INVALID || vin_id >= SF_CHANNEL_MAP_MAX)) ==>
 					(__CPROVER_return_value == SF_FALSE && PSF->error == SFE_BAD_COMMAND_PARAM && PSF->channel_map == vin_channel_map)) /*@C09.rejected_channel_map_keeps_the_stored_one*/ /*@C12.rejected_channel_map_keeps_the_stored_one*/
+/* SFC_FILE_TRUNCATE (C08): positions at the requested frame, makes it the frame count, cuts the file at the byte position that led to;
+** nothing is cut when the positioning fails or the handle cannot write */
+#define TRUNC_CALL	(sndfile != NULL && FILE_OK && vin_command == SFC_FILE_TRUNCATE && (vin_mode == SFM_WRITE || vin_mode == SFM_RDWR) && !vin_data_null && vin_datasize == 8)
+__CPROVER_ensures (TRUNC_CALL ==> (gt.seek_calls == 1 && gt.seek_arg == vin_trunc_pos && gt.seek_whence == SEEK_SET)) /*@C08.truncate_positions_at_the_requested_frame*/
+__CPROVER_ensures ((TRUNC_CALL && gt.seek_ret == vin_trunc_pos) ==>
+					(PSF->sf.frames == vin_trunc_pos && gt.trunc_calls == 1 && gt.trunc_len == gt.fseek_ret && __CPROVER_return_value == gt.trunc_ret)) /*@C08.truncate_cuts_at_the_requested_frame*/
+__CPROVER_ensures ((TRUNC_CALL && gt.seek_ret != vin_trunc_pos) ==> (gt.trunc_calls == 0 && PSF->sf.frames == vin_frames)) /*@C08.failed_positioning_truncates_nothing*/ /*@C09.failed_positioning_truncates_nothing*/
+__CPROVER_ensures ((sndfile != NULL && FILE_OK && vin_command == SFC_FILE_TRUNCATE && vin_mode == SFM_READ) ==> (gt.trunc_calls == 0 && PSF->sf.frames == vin_frames)) /*@C08.read_handle_is_never_truncated*/ /*@C09.read_handle_is_never_truncated*/
 /* the header is rewritten exactly once by the commands that promise it (C11) */
 __CPROVER_ensures ((sndfile != NULL && FILE_OK && vin_command == SFC_UPDATE_HEADER_NOW) ==> g_hdr_calls == (PSF->write_header != NULL ? 1 : 0)) /*@C11.update_header_now_calls_write_header_once*/
 __CPROVER_ensures ((sndfile != NULL && FILE_OK && vin_command == SFC_SET_UPDATE_HEADER_AUTO) ==> (PSF->auto_header == (vin_datasize ? SF_TRUE : SF_FALSE) && __CPROVER_return_value == PSF->auto_header)) /*@C11.auto_header_flag*/
@@ -269,6 +286,7 @@ void h_command (void)
 	  vin_rc = a [0] ; vin_wc = a [1] ; vin_frames = a [2] ; vin_dataoffset = a [3] ; { int *cm_nd ; vin_channel_map = cm_nd ; vin_id = b [14] ; } }
 	GHOST_HAVOC () ;
 	g_hdr_calls = 0 ; g_codec_calls = 0 ; g_seek_calls = 0 ; g_fmt_size = 0 ; g_fmt_dst = NULL ;
+	{ sf_count_t tp ; vin_trunc_pos = tp ; gt.trunc_calls = 0 ; gt.seek_calls = 0 ; }
 #ifdef CMD_FIXED
 	/* one unit per command id of the public header: the id is concrete (symbolic execution prunes the other
 	** cases), datasize / data / handle state stay symbolic */
